@@ -203,6 +203,35 @@ def run_path(eng, b0, b1, L, want):
             P("fetch:after-history", s_h == "ok" and hi.name() == fi.name() and hi.length() == fi.length(),
               f"{tag}: an Emulator that decoded 'MV A,55; NOP' at {base:#x} before decodes these bytes as "
               f"{hi.name() + '/' + str(hi.length()) if s_h == 'ok' else repr(hi)}, a fresh one as {fi.name()}/{fi.length()}")
+    # ---- emulator fetch at other addresses: an arbitrary 20-bit address whose 8 bytes lie inside the 1 MiB space (symbolic),
+    #      the address at which the instruction ends exactly on the last byte of that space, and 0xFFFFF (the bytes after the
+    #      first come from the internal-memory window): same verdict as at the fixed base
+    if L == FULL and s_f == "ok":
+        fsym = eng.fresh("fetch_base", 20)
+        eng.assume(T(fsym) + FULL <= 0x100000)
+        bases = [("any", fsym), ("last-byte", 0xFFFFF)]
+        if accepted and outcome == "ok":
+            bases.insert(1, ("top-aligned", 0x100000 - instr.length()))
+        for bi, (btag, fbase) in enumerate(bases):
+            sm3 = SymMem(f"mem3_{bi}", eng)
+            for i, x in enumerate(data.items):
+                eng.add(z3.Select(sm3.init, T(fbase) + i) == z3.Extract(7, 0, T(x)))
+            emu3 = EMU.Emulator(EMU.Memory(sm3.read, sm3.write), reset_on_init=False)
+            s_a, ai = hook(lambda: emu3.decode_instruction(fbase))
+            P(f"fetch:{btag}-address:no-exception", s_a == "ok", f"{tag}: {ai!r}" if s_a != "ok" else tag)
+            if s_a != "ok":
+                continue
+            an, same_name = ai.name(), None
+            m = re.fullmatch(r"(.*)(<sym#\d+:02[Xx]>)(.*)", an)
+            if m and m.group(2) in eng.placeholders and fi.name().startswith(m.group(1)) and len(fi.name()) == len(m.group(1)) + 2 + len(m.group(3)):
+                # a name such as UNK_xx / PRExx printed from a byte fetched through the array: the digits are that byte's
+                digits = fi.name()[len(m.group(1)):len(m.group(1)) + 2]
+                if fi.name().endswith(m.group(3)) and re.fullmatch(r"[0-9A-Fa-f]{2}", digits):
+                    same_name = SymBool(T(eng.placeholders[m.group(2)][0]) == int(digits, 16))
+            if same_name is None:
+                same_name = an == fi.name()
+            P(f"fetch:{btag}-address:same-name-and-length", core.and_(same_name, ai.length() == fi.length()),
+              f"{tag}: fetched at {'a symbolic address' if btag == 'any' else hex(fbase)} the bytes decode as {ai.name()}/{ai.length()}, at {base:#x} as {fi.name()}/{fi.length()}")
     # ---- truncated buffers: with fewer bytes than its length the instruction is rejected cleanly,
     #      with at least its length the result is the same (trailing bytes do not matter)
     if L == FULL and want == "C01":
